@@ -297,15 +297,16 @@ R.contract(
     ],
     raises="none",
 )
-R.contract(
-    LC + "invalidate", "C15",
-    modifies=["self._ns._d"],
-    types={"self": "LRUCacheT"},
-    returns="int",
-    ensures=[("count-exact", "result == old(len(self._ns._d))"), ("emptied", "len(self._ns._d) == 0"),
-             counters_same(), frame_cfg(P1)],
-    raises="none",
-)
+for _m in ("invalidate", "clear"):       # `clear = invalidate` (class-level alias, resolved by the frontend)
+    R.contract(
+        LC + _m, "C15",
+        modifies=["self._ns._d"],
+        types={"self": "LRUCacheT"},
+        returns="int",
+        ensures=[("count-exact", "result == old(len(self._ns._d))"), ("emptied", "len(self._ns._d) == 0"),
+                 counters_same(), frame_cfg(P1)],
+        raises="none",
+    )
 for _m in ("size", "__len__"):
     R.contract(
         LC + _m, "C15",
@@ -656,12 +657,20 @@ R.contract(
          "forall((k, 'Un[K]'), old(k in tmap), k in tmap and tmap[k] == old(tmap)[k])"),
         ("result-contains-every-worker-key",
          "forall(a, 0 <= a < len(visited), forall((k, 'Un[K]'), k in visited[a][1], k in tmap))"),
+        ("new-key-value-comes-from-a-minimal-order-key-worker",
+         "forall((k, 'Un[K]'), k in tmap and not old(k in tmap), "
+         " exists(i, 0 <= i < len(worker_caches), k in worker_caches[i][1] and tmap[k] == worker_caches[i][1][k] and "
+         "   forall(j, 0 <= j < len(worker_caches), implies(k in worker_caches[j][1], "
+         "          wkey(worker_caches[i][0]) <= wkey(worker_caches[j][0])))))"),
         ("nothing-else-added/new-key-takes-first-worker-in-order",
          "forall((k, 'Un[K]'), k in tmap and not old(k in tmap), "
          " exists(a, 0 <= a < len(visited), k in visited[a][1] and tmap[k] == visited[a][1][k] and "
          "   forall(b, 0 <= b < a, not (k in visited[b][1]))))"),
     ],
     asserts={"kvs": ["ghost:visited.append((_, wc))", "ghost:marks.append(len(queries))"]},
+    # clause `new-key-value-comes-from-a-minimal-order-key-worker` is stated on the *input* list: independent of the order
+    # in which the workers were handed in whenever the worker order keys are pairwise distinct (the minimum is unique
+    # then); with equal order keys the stable sort lets the input position decide (observed natively)
     loops={
         0: {"modifies": ["visited", "marks"], "index": "_w", "iter": "_S", "inv": [
             "len(visited) == _w and len(marks) == _w",
